@@ -27,6 +27,12 @@ CHECKS = {
             "parts": [part("TestC03", 8, 150, 16, 1500)]},
     "C09": {"level": "exploration",
             "parts": [part("TestC09", 8, 150, 16, 2000)]},
+    "C05": {"level": "exploration", "scheduled": True,
+            "parts": [part("TestC05", 8, 150, 16, 2500)]},
+    "C06": {"level": "exploration", "scheduled": True,
+            "parts": [part("TestC06", 8, 150, 16, 2500)]},
+    "C16": {"level": "exploration", "scheduled": True,
+            "parts": [part("TestC16", 8, 150, 16, 2500)]},
     "C04": {"level": "exploration", "scheduled": True,
             "parts": [part("TestC04", 8, 100, 16, 1500)]},
 }
